@@ -29,6 +29,9 @@ def configs(tier):
     # member names that point into the repository's control directory (the aiohttp front end has no git handler in front of them)
     out.append(Config(front="aio", backend="tree", prefix="/", features={"git", "fsck"}, names={"cal": ["a.ics", ".git/a.ics", ".git/z.ics"], "ab": [], "c2": []}, bodies={"cal": ["X", "X2"], "ab": [], "c2": []},
                       props={}, oracles={"C09"}, label="tree/aio+control-dir-names"))
+    # a second worker process on the same bare repository (every store handle must build its commits on the branch head as it is now)
+    out.append(Config(front="wsgi", backend="bare", prefix="/", features={"git", "two-workers"}, names={"cal": ["a.ics", "b.ics"], "ab": [], "c2": []}, bodies={"cal": ["X", "Z"], "ab": [], "c2": []},
+                      props={}, oracles={"C09"}, label="bare/wsgi+two-workers"))
     if tier == "thorough":
         out += [
             Config(front="aio", backend="tree", prefix="/dav/", features=feats, bodies=bodies, props=props, oracles={"C09"}),
@@ -39,6 +42,8 @@ def configs(tier):
 
 def run(tier, workers=None):
     def seeds(cfg):
+        if "two-workers" in cfg.features:
+            return [[("put", "cal", "a.ics", "X")]]
         return [[("mkcalendar", "c2"), ("put", "c2", "a.ics", "X")], [("put", "cal", "a.ics", "X"), ("put", "cal", "a.ics", "X2"), ("delete", "cal", "a.ics")]]
 
     def depth_of(cfg):
